@@ -183,6 +183,30 @@ silently instead of raising. -/
 theorem C05_fixed_overflow_defect : fixedEncode 10 300000000 = none := by
   decide +kernel
 
+/-- **compress() on a float column stays within the relative tolerance** (exact arithmetic):
+whenever `_get_decimal_places` returns `d`, every non-zero value `x` of the column (i) fits the
+int32 fixed-point representation with factor `10^d` (so `FixedPointEncoding` stores the exact
+rounded integer) and (ii) decodes to a value within `tol·|x|` of `x`.  When it returns `None`
+the column is stored as plain bytes (lossless, `C05_bytes`). -/
+theorem C05_compress_float_tolerance (fuel : Nat) (d0 d : Int) (xs : List Rat) (tol : Rat)
+    (h : decimalsFrom fuel d0 xs tol = some d) :
+    ∀ x ∈ xs, ∃ k, fixedEncode (pow10 d) x = some k ∧
+      absQ (fixedDecode (pow10 d) k - x) < tol * absQ x := by
+  obtain ⟨hmax, hall⟩ := decimalsFrom_sound fuel d0 xs tol d h
+  intro x hx
+  have hp := pow10_pos d
+  have hle := le_maxAbs xs x hx
+  have hb := absQ_bounds x
+  have hfit : fitsFixed (pow10 d) x = true := by
+    simp only [fitsFixed, decide_eq_true_eq]
+    have h1 : absQ x * pow10 d ≤ maxAbs xs * pow10 d := by nlinarith
+    constructor
+    · nlinarith [hb.1]
+    · nlinarith [hb.2]
+  refine ⟨fixedRound (pow10 d) x, ?_, ?_⟩
+  · simp [fixedEncode, fixedRound_inRange _ _ hfit]
+  · rw [fixedDecode_round]; exact hall x hx
+
 /-- Interval quantisation maps every value of `[min, max]` to the next grid point at or above
 it: the decoded value is at most one step above the original (`searchsorted(side="left")`). -/
 theorem C05_interval (mn mx x : Rat) (n : Nat) (hn : 2 ≤ n) (hlt : mn < mx) (hx1 : mn ≤ x) (hx2 : x ≤ mx) :
@@ -388,6 +412,8 @@ theorem C05_gen_typecodes :
 /-! ## Non-vacuity (float / string / byte part) -/
 
 example : fitsFixed 1000 (12345/1000) = true ∧ fixedEncode 1000 (12345/1000) = some 12345 := by decide +kernel
+example : decimalsFrom 40 0 [12345/1000, -5/2] (1/1000000) = some 3 := by decide +kernel
+example : decimalsFrom 40 (-8) [100000000, 12345678/10000000, 3] (1/1000000) = none := by decide +kernel
 example : intervalEncode 0 10 11 (7/2) = 4 ∧ intervalDecode 0 10 11 4 = 4 := by decide +kernel
 example : stringEncode ["b", "a", "b", ""] = (["b", "a", ""], [0, 1, 0, 2]) := by decide
 example : bytesEncode .i16 [-2, 258] = [254, 255, 2, 1] := by decide
